@@ -323,6 +323,44 @@ impl AnySection for E3Section {
             true
         };
         let stats = explore(&|| self.make(&fx), self.sc.bound, 2_000_000, deadline, &mut check);
+        // free-running complement (SAMPLING, labelled as such): the same bodies on real threads without the
+        // scheduler, released together; catches anything the cooperative hand-offs could mask. A mismatch is
+        // still a real misbehaviour of the real code and is reported, but nothing is claimed from its silence.
+        let free_runs = if rep.cfg.thorough() { 200 } else { 25 };
+        let mut free_bad = 0u64;
+        for _ in 0..free_runs {
+            let (bodies, _) = self.make(&fx);
+            let barrier = Arc::new(std::sync::Barrier::new(bodies.len()));
+            let hs: Vec<_> = bodies
+                .into_iter()
+                .map(|b| {
+                    let bar = barrier.clone();
+                    std::thread::spawn(move || {
+                        bar.wait();
+                        guard(b)
+                    })
+                })
+                .collect();
+            for (t, h) in hs.into_iter().enumerate() {
+                match h.join() {
+                    Ok(Ok(v)) if v == expected[t] => {}
+                    other => {
+                        free_bad += 1;
+                        rep.add_violation(
+                            &self.sc.name,
+                            json!({"scenario": self.sc, "choices": [], "schedule": "free-running (uncontrolled)"}),
+                            Fail {
+                                key: format!("{}:{:?}:free-running-result-differs", self.sc.name, self.sc.scheme),
+                                expected: format!("thread {t} returns the sequential bytes"),
+                                observed: format!("{:?}", other.map(|r| r.map(|_| "different bytes"))),
+                            },
+                        );
+                    }
+                }
+            }
+        }
+        rep.observe(format!("free-running complement (sampling, not exhaustive): {} uncontrolled runs per scenario, all thread results equal to the sequential ones unless a violation is listed", free_runs));
+        let _ = free_bad;
         rep.evaluations.fetch_add(executions, std::sync::atomic::Ordering::Relaxed);
         rep.steps.fetch_add(executions, std::sync::atomic::Ordering::Relaxed);
         rep.states.fetch_add(decisions, std::sync::atomic::Ordering::Relaxed);
